@@ -308,7 +308,10 @@ class Run:
             return "not-reproduced", outs
         return "ok", outs
 
-    def finish(self, coverage, assumptions=(), confirm_limit=12):
+    def finish(self, coverage, assumptions=(), confirm_limit=12, measured_prefixes=()):
+        """measured_prefixes: keys whose verdict rests on a time measurement.  If such a violation is not
+        reproduced by either of the two replays in fresh processes it was a disturbed measurement (busy machine):
+        it is dropped and listed in the evidence instead of being reported or treated as a harness error."""
         known = load_known(self.pid)
         viol = self.tally.violations
         new, listed = [], []
@@ -324,6 +327,10 @@ class Run:
             if confirmed < confirm_limit:
                 status, outs = self._confirm(path, key)
                 confirmed += 1
+                if status == "not-reproduced" and key.startswith(tuple(measured_prefixes) or ("\0",)) and not any(key in o[1] for o in outs):
+                    print(f"NOTE property={self.pid} measurement not confirmed by two replays, dropped: {key}", flush=True)
+                    self.tally.stats["time measurements not confirmed on replay (dropped)"] += 1
+                    continue
                 if status != "ok":
                     print(
                         f"HARNESS-ERROR property={self.pid} key={key!r} replay {status}: {outs}",
